@@ -40,7 +40,7 @@ def coq_msg(status, sfv):
     return f"({st}, Some ({ct(sfv[0] or '')}, {ct(sfv[1] or '')}, {ct(sfv[2] or '')}))"
 
 
-LOG_RE = re.compile(r"^(\d+\.\d{6}) (Send|Received): (.*)$", re.S)
+LOG_RE = re.compile(r"^(?:(\S+) )?(Send|Received): (.*)$", re.S)  # the statement fixes label and exact text, not the stamp
 
 
 def project(events):
@@ -70,8 +70,6 @@ def project(events):
                     notes.append(("bad-log-entry", e["text"]))
                     a = f"SLogAdd {ct(e['text'])}"
                 else:
-                    if float(m.group(1)) > e["t"] / 1e6 + 1e-9:
-                        notes.append(("bad-log-entry", e["text"], e["t"]))
                     a = f"SLogAdd {ct(m.group(3))}"
             elif k == "LockAcq":
                 a = "SLockAcq"
@@ -123,8 +121,6 @@ def project(events):
                         notes.append(("bad-log-entry", e["text"]))
                         a = f"RLogAdd {ct(e['text'])}"
                     else:
-                        if float(m.group(1)) > e["t"] / 1e6 + 1e-9:
-                            notes.append(("bad-log-entry", e["text"], e["t"]))
                         a = f"RLogAdd {ct(m.group(3))}"
                 elif k == "Get" and e["attr"] == "_keep_alive_pending":
                     a = f"RGetFlag {'true' if e['val'] else 'false'}"
